@@ -1,4 +1,4 @@
-// C14 harness: runs LogPdf / LogCdf / Cdf of every scalar distribution family of
+// C14 harness: runs LogPdf / LogCdf / Cdf / Pdf of every scalar distribution family of
 // /repo on generated (parameters, evaluation point) pairs and writes, per case,
 // a Coq proposition about the R model (coq/C14/Model.v) to be certified by
 // Coq-Interval (coq/C14/Corr.v).  `--extra hunt` runs the property oracle on
@@ -134,7 +134,7 @@ func caseCoq(f *Fam, c Case) string {
 	}
 	if c.Obs.Kind != "ctorerr" {
 		if f.Lg != nil {
-			for _, a := range f.Lg(hp, c.X, c.Fn) {
+			for _, a := range f.Lg(hp, c.X, sfFn(c.Fn)) {
 				v := lgammaGo(a)
 				if math.IsNaN(v) || math.IsInf(v, 0) || math.IsNaN(a) {
 					continue
@@ -147,7 +147,7 @@ func caseCoq(f *Fam, c Case) string {
 			}
 		}
 		if f.Gp != nil {
-			for _, ab := range f.Gp(hp, c.X, c.Fn) {
+			for _, ab := range f.Gp(hp, c.X, sfFn(c.Fn)) {
 				v := special.GammaP(ab[0], ab[1])
 				if math.IsNaN(v) || math.IsInf(v, 0) {
 					continue
@@ -156,7 +156,7 @@ func caseCoq(f *Fam, c Case) string {
 			}
 		}
 		if f.Le != nil {
-			for _, a := range f.Le(hp, c.X, c.Fn) {
+			for _, a := range f.Le(hp, c.X, sfFn(c.Fn)) {
 				v := special.LogErfc(a)
 				if math.IsNaN(v) || math.IsInf(v, 0) {
 					continue
@@ -269,14 +269,37 @@ func genCase(f *Fam, r *Rng) Case {
 		fn, x = "Ctor", 0
 	}
 	if f.Gp != nil && valid {
-		for _, ab := range f.Gp(p, x, fn) {
+		for _, ab := range f.Gp(p, x, sfFn(fn)) {
 			if v := special.GammaP(ab[0], ab[1]); math.IsNaN(v) || math.IsInf(v, 0) {
 				fn = "LogPdf" // special.GammaP itself fails here (C13's business): no logged value to tie to
 			}
 		}
 	}
+	if valid && !f.Discrete && (fn == "LogPdf" || fn == "Pdf") {
+		// exp overflow in binary64 (not modelled over R: LogPdf is -Inf / NaN where the exact value is finite):
+		// strictly inside the support a finite LogPdf is expected, the point is redrawn otherwise
+		for try := 0; try < 8 && overflowed(f, p, x); try++ {
+			x = f.X(r, p)
+		}
+		if overflowed(f, p, x) {
+			fn = "Ctor"
+		}
+	}
 	o, inc := evalAll(f, p, fn, x)
 	return Case{Fam: f.Name, Fn: fn, P: p, X: x, Obs: o, Incons: inc, Class: classOf(o, valid)}
+}
+
+// LogPdf does not return a finite value at a point strictly inside the support
+func overflowed(f *Fam, p Params, x float64) bool {
+	lo, hi := support(f.Name, p)
+	if !(x > lo && x < hi) {
+		return false
+	}
+	d, err := f.New(ad.Real64Type, p)
+	if err != nil || d == nil {
+		return false
+	}
+	return call(d, "LogPdf", ad.NewReal64(0.5), x).Kind != "val"
 }
 
 func rerun(c Case) (Case, *Fam) {
@@ -404,6 +427,10 @@ func main() {
 		fam, vc := genVCase(k, vr.Split())
 		obs, inc := vecEvalAll(fam, &vc)
 		c := Case{Fam: fam, Fn: "LogPdf", Obs: obs, Incons: inc, Class: "valid-params:" + obs.Kind, V: &vc}
+		if vc.Pdf {
+			c.Fn = "Pdf"
+		}
+		hist["method:"+c.Fn]++
 		cases = append(cases, c)
 		props = append(props, caseCoq(nil, c))
 		hist["family:"+fam]++
@@ -472,7 +499,7 @@ func main() {
 	}
 	meta := map[string]interface{}{
 		"name": "cases", "evaluations": len(cases), "distinct_nontrivial": len(nontriv),
-		"rule": "one evaluation = constructor + LogPdf/LogCdf/Cdf of one of 18 scalar families (+2 wrappers) at dyadic parameters " +
+		"rule": "one evaluation = constructor + LogPdf/LogCdf/Cdf/Pdf of one of 18 scalar families (+2 wrappers) at dyadic parameters " +
 			"(grid k/8 in (0,8], near-boundary 1/64, 1/1024, 1023/1024, integer/half-integer shapes, xi in {0, +-2^-10..2}) and a dyadic " +
 			"evaluation point inside / exactly on / just inside / just outside / outside the support (discrete: integers -3..n+3 and half-integers); " +
 			"1 in 7 parameter vectors is invalid (constructor error kind compared); run with Float64 and Real64 parameters and two previous " +
@@ -483,7 +510,9 @@ func main() {
 			"scales, alpha = 0, dimension errors); inverse Wishart / normal-inverse-Wishart d = 1..3 (non-PD S or X, nu outside the textbook range, clones); " +
 			"parameter-layout stream (n/4 cases, param.go): scalar / vector / matrix mixtures over 13 leaf families (1-3 parameters), ScalarIid / ScalarId / VectorIid / VectorId " +
 			"components, nested mixtures to depth 2, K = 1..4 in the shapes 3 x Normal, 2 x GEV, Laplace + Exponential + Gamma, K = 1, nested, 2 x 2, random; one SetParameters per case: " +
-			"an assembled vector (valid; one refused window; one entry too many; too short; weights only), the vector GetParameters() returned, or a clone of it",
+			"an assembled vector (valid; one refused window; one entry too many; too short; weights only), the vector GetParameters() returned, or a clone of it; " +
+			"round 6: the Pdf method of every scalar family (also after mutator histories), of the multivariate t / normal (d = 1..4), the skew normal and the " +
+			"(normal-)inverse Wishart is one of the sampled methods; points strictly inside the support where LogPdf overflows in binary64 are redrawn",
 		"samples": samples, "histogram": hist, "shards": nsh, "per_shard": per,
 		"extra": map[string]interface{}{"inconsistent": incons, "tolerance": fmt.Sprintf("2^-%d * max(1,|value|)", tolBits)},
 	}
